@@ -99,14 +99,21 @@ def default_inlinable(prog, caller, callee, keep):
         return False
     if len(callee.blocks) > 400:
         return False
-    # no recursion back into the caller or itself
-    reach = prog.reachable([callee])
-    if caller.uid in reach:
-        return False
+    # A callee that reaches its caller again (recursive-descent grammars: helper -> value ->
+    # list_value -> this closure) is still spliced in once: the inner call stays a call, and the
+    # depth bound plus the `_seen` chain stop repeated splicing.  Only direct self-recursion of the
+    # callee is refused.
     cg = prog.callgraph()
     if callee.uid in cg.get(callee.uid, {}):
         return False
     return True
+
+
+def private_inlinable(prog, caller, callee, keep):
+    """stricter than default_inlinable: only functions written without any visibility modifier
+    (`fn helper(..)`, not `pub(crate) fn`) - for analyses that keep per-function summaries of the
+    crate-visible functions and only want extracted private helpers folded into their single user"""
+    return bool(callee is not None and callee.d.get("private")) and default_inlinable(prog, caller, callee, keep)
 
 
 COMBINATORS = {
@@ -171,6 +178,7 @@ def _expand_combinator(prog, d, b, t, none_value, depth, keep, inlinable, seen):
     d["blocks"].append({"s": [["=", [loff + 1, []], ["use", copy.deepcopy(args[1])], loc],
                               ["=", [loff + 2, []], ["use", ["m", payload]], loc]],
                         "t": ["goto", boff], "c": False})
+    d["origin"].extend([d["origin"][b]] * 2 + list(clo.d.get("origin") or [clo.uid] * len(clo.d["blocks"])))
     for cb in clo.d["blocks"]:
         ns = [_remap_stmt(s, loff) for s in cb["s"]]
         ct = cb["t"]
@@ -208,6 +216,7 @@ def inline(prog, fn, keep=None, depth=2, inlinable=None, _seen=None):
                 d = dict(fn.d)
                 d["blocks"] = [dict(s=list(bl["s"]), t=bl["t"], c=bl["c"]) for bl in blocks]
                 d["locals"] = list(locals_)
+                d["origin"] = list(fn.d.get("origin") or [fn.uid] * len(blocks))
             if _expand_combinator(prog, d, b, t, comb[0], depth, keep, inlinable, _seen | {fn.uid}):
                 changed = True
                 inlined_names.append(nm)
@@ -224,14 +233,17 @@ def inline(prog, fn, keep=None, depth=2, inlinable=None, _seen=None):
             d = dict(fn.d)
             d["blocks"] = [dict(s=list(bl["s"]), t=bl["t"], c=bl["c"]) for bl in blocks]
             d["locals"] = list(locals_)
+            d["origin"] = list(fn.d.get("origin") or [fn.uid] * len(blocks))
         loff = len(d["locals"])
         boff = len(d["blocks"])
+        d["origin"].extend(callee.d.get("origin") or [callee.uid] * len(callee.d["blocks"]))
         d["locals"].extend(copy.deepcopy(callee.d["locals"]))
         args, dest, target = t[2], t[3], t[4]
         loc = t[6] if len(t) > 6 else [0, 0, False]
         if len(args) != callee.argc:
             # untupled closure-style calls: do not inline
             del d["locals"][loff:]
+            del d["origin"][boff:]
             continue
         for cb in callee.d["blocks"]:
             ns = [_remap_stmt(s, loff) for s in cb["s"]]
